@@ -172,3 +172,13 @@ def run(ctx):
                     tts.append(T.neg(T.cofactor(tts[0], n, {j: rng.random() < 0.5}), n))
             for mode in (0, 1, 3):
                 run_case(ctx, n, tts, mode, gaps=(mode != 3 and rng.random() < 0.5))
+    # files that DECLARE a variable none of their nodes mentions (all roots independent of it),
+    # somewhere in the middle of the order: the levels below it must not shift
+    for n in (3, 4, 5):
+        for _ in range(3 if q else 30):
+            j = rng.randrange(n)
+            val = rng.random() < 0.5
+            tts = [T.cofactor(rng.getrandbits(1 << n), n, {j: val}) for _ in range(rng.randint(1, 3))]
+            ctx.count('declared-variable-without-nodes')
+            for mode in (3, 0, 1):
+                run_case(ctx, n, tts, mode, gaps=(mode != 3 and rng.random() < 0.5))
